@@ -1086,6 +1086,27 @@ def join_shim(sep, parts):
     return out.norm() if not out.ov else out
 
 
+def sformat_shim(template, *args, **kwargs):
+    """`<str literal>.format(...)` where an argument may be a string produced from symbolic bytes"""
+    if kwargs or not any(isinstance(a, (SymStr, AbsStr)) for a in args):
+        return template.format(*args, **kwargs)
+    pieces = _re.split(r'(\{\d*\})', template)
+    out = ''
+    auto = 0
+    for p in pieces:
+        m = _re.fullmatch(r'\{(\d*)\}', p)
+        if m:
+            idx = int(m.group(1)) if m.group(1) else auto
+            auto += 1
+            a = args[idx]
+            out = out + (a if isinstance(a, (str, SymStr, AbsStr)) else format(a))
+        else:
+            if '{' in p.replace('{{', '') or '}' in p.replace('}}', ''):
+                return template.format(*[format(a) if isinstance(a, (SymStr, AbsStr)) else a for a in args])
+            out = out + p.replace('{{', '{').replace('}}', '}')
+    return out
+
+
 def fmt_shim(left, right):
     """`literal % right` where right may contain proxies."""
     args = right if isinstance(right, tuple) else (right,)
@@ -1104,8 +1125,11 @@ def fmt_shim(left, right):
     return MARK + '<fmt>'
 
 
+_SIZES = {'I': 4, 'i': 4, 'L': 4, 'l': 4, 'H': 2, 'h': 2, 'B': 1, 'b': 1, 'Q': 8, 'q': 8}
+
+
 class struct_shim:
-    """struct for the little-endian unsigned-int formats the repo uses; everything else -> real struct."""
+    """struct for little-endian integer formats ('<' + counts + codes in IiLlHhBbQq); everything else -> real struct."""
     _real = _struct
     error = _struct.error
     Struct = _struct.Struct
@@ -1120,33 +1144,46 @@ class struct_shim:
             fmt = fmt.norm()
         if isinstance(fmt, (bytes, bytearray)):
             fmt = bytes(fmt).decode()
-        m = _re.fullmatch(r'<(\d*)I', fmt)
-        if m:
-            return int(m.group(1) or 1)
-        m = _re.fullmatch(r'<(I+)', fmt)
-        if m:
-            return len(m.group(1))
-        return None
+        if not isinstance(fmt, str) or not fmt.startswith('<'):
+            return None
+        codes = []
+        for cnt, c in _re.findall(r'(\d*)([A-Za-z?])', fmt[1:].replace(' ', '')):
+            if c not in _SIZES:
+                return None
+            codes += [c] * (int(cnt) if cnt else 1)
+        if ''.join(_re.findall(r'\d*[A-Za-z?]', fmt[1:].replace(' ', ''))) != fmt[1:].replace(' ', ''):
+            return None
+        return codes
 
     @staticmethod
     def pack(fmt, *vals):
         if not any(isinstance(v, (SymInt, SymReal)) for v in vals):
             return _struct.pack(fmt, *vals)
-        n = struct_shim._parse(fmt)
-        if n is None:
+        codes = struct_shim._parse(fmt)
+        if codes is None:
             raise Unsupported('struct.pack fmt %r with symbolic' % (fmt,))
-        if len(vals) != n:
-            raise _struct.error('pack expected %d items for packing (got %d)' % (n, len(vals)))
+        if len(vals) != len(codes):
+            raise _struct.error('pack expected %d items for packing (got %d)' % (len(codes), len(vals)))
         out = SymBytes()
-        for v in vals:
+        for c, v in zip(codes, vals):
             if isinstance(v, SymReal):
                 raise _struct.error('required argument is not an integer')
+            size = _SIZES[c]
             if isinstance(v, SymInt):
-                if not (v >= 0) or not (v <= 0xFFFFFFFF):   # forks, like the real range check
+                bits = 8 * size
+                if c.islower():
+                    lo, hi = -(1 << (bits - 1)), (1 << (bits - 1)) - 1
+                else:
+                    lo, hi = 0, (1 << bits) - 1
+                if not (v >= lo) or not (v <= hi):   # forks, like the real range check
                     raise _struct.error('argument out of range')
-                out = out + CUR.le32(v)
+                u = v if not c.islower() else SymInt(z3.If(v.t < 0, v.t + (1 << bits), v.t))
+                if size == 4:
+                    out = out + CUR.le32(u)
+                else:
+                    out = out + CUR.le_bytes(u, size)
             else:
-                out = out + _struct.pack('<I', v)
+                out = out + _struct.pack('<' + c, v)
         return out
 
     @staticmethod
@@ -1155,15 +1192,42 @@ class struct_shim:
             return _struct.unpack(fmt, buf)
         if not buf.ov:
             return _struct.unpack(fmt, bytes(buf.base))
-        n = struct_shim._parse(fmt)
-        if n is None:
+        codes = struct_shim._parse(fmt)
+        if codes is None:
             raise Unsupported('struct.unpack fmt %r with symbolic' % (fmt,))
-        if len(buf) != 4 * n:
-            raise _struct.error('unpack requires a buffer of %d bytes' % (4 * n))
+        total = sum(_SIZES[c] for c in codes)
+        if len(buf) != total:
+            raise _struct.error('unpack requires a buffer of %d bytes' % total)
         res = []
-        for i in range(n):
-            res.append(word_le(buf, 4 * i))
+        off = 0
+        for c in codes:
+            size = _SIZES[c]
+            if size == 4:
+                u = word_le(buf, off)
+            else:
+                u = uint_le(buf, off, size)
+            if c.islower() and isinstance(u, SymInt):
+                bits = 8 * size
+                u = SymInt(z3.If(u.t >= (1 << (bits - 1)), u.t - (1 << bits), u.t))
+            elif c.islower():
+                bits = 8 * size
+                u = u - (1 << bits) if u >= (1 << (bits - 1)) else u
+            res.append(u)
+            off += size
         return tuple(res)
+
+
+def uint_le(buf, off, size):
+    b = [buf.ov.get(off + j) for j in range(size)] if isinstance(buf, SymBytes) else [None] * size
+    base = buf.base if isinstance(buf, SymBytes) else buf
+    if all(x is None for x in b):
+        return int.from_bytes(bytes(base[off:off + size]), 'little')
+    t = None
+    for j in range(size):
+        x = b[j] if b[j] is not None else z3.IntVal(base[off + j])
+        x = x * (1 << (8 * j)) if j else x
+        t = x if t is None else t + x
+    return SymInt(z3.simplify(t))
 
 
 def word_le(buf, off):
@@ -1261,6 +1325,7 @@ class Explorer:
         self.labels = []
         self.reached = False
         self._le32_back = {}
+        self._le32_memo = {}
         self._keep = []
         self._fresh = 0
         self.path_failed = False
@@ -1338,17 +1403,29 @@ class Explorer:
 
     def _aux_byte(self):
         self._fresh += 1
-        v = z3.Int('aux!%d' % self._fresh)
-        self.add(z3.And(v >= 0, v <= 255))
-        return v
+        return z3.Int('aux!%d' % self._fresh)
 
     def le32(self, v):
-        """4 little-endian bytes of SymInt v (assumed proven in range): fresh bytes + linear defining constraint."""
+        """4 little-endian bytes of SymInt v (assumed proven in range): fresh bytes + linear defining constraint.
+        Memoised per term, so a value packed repeatedly (remote ids, checksums) costs one set of bytes per path."""
+        key = v.t.get_id()
+        hit = self._le32_memo.get(key)
+        if hit is not None:
+            return SymBytes(bytes(4), hit)
         bs = [self._aux_byte() for _ in range(4)]
-        self.add(v.t == bs[0] + 256 * bs[1] + 65536 * bs[2] + 16777216 * bs[3])
+        self.add(z3.And(bs[0] >= 0, bs[0] <= 255, bs[1] >= 0, bs[1] <= 255, bs[2] >= 0, bs[2] <= 255, bs[3] >= 0, bs[3] <= 255,
+                        v.t == bs[0] + 256 * bs[1] + 65536 * bs[2] + 16777216 * bs[3]))
         self._le32_back[tuple(b.get_id() for b in bs)] = v
-        self._keep.append(bs)
-        return SymBytes(bytes(4), {i: b for i, b in enumerate(bs)})
+        self._keep.append((bs, v.t))
+        ov = {i: b for i, b in enumerate(bs)}
+        self._le32_memo[key] = ov
+        return SymBytes(bytes(4), ov)
+
+    def le_bytes(self, v, size):
+        bs = [self._aux_byte() for _ in range(size)]
+        self.add(z3.And(*([b >= 0 for b in bs] + [b <= 255 for b in bs] + [v.t == z3.Sum([bs[j] * (1 << (8 * j)) for j in range(size)])])))
+        self._keep.append((bs, v.t))
+        return SymBytes(bytes(size), {i: b for i, b in enumerate(bs)})
 
     # ---- decisions
     def _replay(self, kind):
